@@ -3,3 +3,8 @@ from checks.containers import run_container
 
 def run(tier, seed):
     return run_container("C02", "dir", tier, seed, cc=False)
+
+
+def replay(path):
+    from checks.containers import replay_container
+    return replay_container("C02", path)
